@@ -36,6 +36,9 @@ type nWorker struct {
 	// compOnly: only the scheduling points of the composites stop this caller (`pts=comp`: the leaves are atomic
 	// objects again, a release runs a whole section of a composite)
 	compOnly bool
+	// fine: also the FINE points stop this caller (`pts=fine`: inside the function passed to a once, between the loads of
+	// one read-only group)
+	fine bool
 }
 
 var (
@@ -87,6 +90,9 @@ func installNHook() {
 				if w.compOnly && !strings.HasPrefix(point, "composite") {
 					return
 				}
+				if strings.HasPrefix(point, "fine:") && !w.fine {
+					return
+				}
 				w.parked <- "K"
 				<-w.resume
 				return
@@ -109,7 +115,7 @@ func runNConc(m map[string]string) string {
 	ws := make([]*nWorker, len(progs))
 	var begun, done atomic.Int64
 	for i, p := range progs {
-		w := &nWorker{resume: make(chan struct{}), parked: make(chan string), left: len(p), compOnly: m["pts"] == "comp"}
+		w := &nWorker{resume: make(chan struct{}), parked: make(chan string), left: len(p), compOnly: m["pts"] == "comp", fine: m["pts"] == "fine"}
 		ws[i] = w
 		prog := p
 		ready := make(chan struct{})
